@@ -207,3 +207,230 @@ Proof.
   vm_compute. split; [reflexivity|]. split; [reflexivity|]. split; [|reflexivity].
   eexists [_]. eexists [_]. reflexivity.
 Qed.
+
+(** ** Source tie, DATA side: what processing.go computes, regenerated as executable Gallina
+
+    REGENERATED on every run (translator/pipedata.go -> coq/gen/PipeDataGen.v), statement by statement from the AST:
+    [gen_polygonsToMulti], [gen_processMultiPolygon] (the loop nest with `m[k] = append(m[k], v)`), the struct
+    featureForTileMatrixWrapper and the interface Feature as Records, [gen_wrapFeatureForTileMatrix], the three methods
+    of the wrapper, [gen_processFeatures_body] (everything processFeatures does with ONE received feature: the type
+    switch, what is sent under which tile matrix id with which geometry, the panic of line 39, the counters; the output
+    channel is the list of the values sent on it, in order) and [gen_writeFeaturesToTargets_body] (the lookup
+    targetChannels[feature.TileMatrixID()], its nil test and panic, the send on the channel found).
+    Polygons, columns and channels are abstract types (the code never looks inside them); the processPolygonFunc [f] is a
+    parameter; every `range` over a Go map iterates in the order given by the parameter [ord] (one site per execution of
+    the statement), and the theorems hold for EVERY [ord] that permutes ([ord_ok]).
+    Hypotheses: [ord_ok ord] (an iteration visits every key once) and [gomap_wf (f p ts)] (what f returns is a Go map:
+    no key twice — the representation invariant of the association list, not a restriction on f).  NOT needed: that the
+    keys f returns are among tileMatrixIDs (an unknown id is sent on, and stopped by the Router's lookup:
+    [C10_source_tie_data_route]); a nil map from f is the empty list.
+    STAYS MODELLED (Pipe/GoData.v, listed at the top of the generated file): Go maps as association lists, slices as
+    values, interface values by their dynamic type, Feature's methods as getters, the channels (the skeleton's concern). *)
+From Coq Require Import Permutation.
+From Texel Require Import Prelude.Base Prelude.GoAssoc Pipe.GoData Pipe.DataTie Pipe.ProofsGenData.
+From Texel.Gen Require Import PipeDataGen.
+Open Scope list_scope.
+
+(** polygonsToMulti returns a copy of its argument, in order (for every polygon type and every value of the nil
+    polygon [make] fills the new slice with): the geometry sent for several polygons is ONE multipolygon of exactly
+    them — [GMulti ps] of [geom_of_polys]; no index panic, the fuel of the counting loop suffices *)
+Theorem C10_source_tie_data_polygonsToMulti : forall (P : Type) (nilp : P) (ps : list P),
+  gen_polygonsToMulti nilp ps = Ok ps.
+Proof. exact @gen_polygonsToMulti_copy. Qed.
+Print Assumptions C10_source_tie_data_polygonsToMulti.
+
+(** processMultiPolygon, for every polygon type and EVERY iteration order of the maps f returns: it does not panic;
+    the result is a Go map in which tile matrix id k holds the concatenation, in part order, of the polygons f
+    returned for k, and has no entry for k when f returned none *)
+Theorem C10_source_tie_data_processMultiPolygon :
+  forall (P : Type) (ord : gen_site -> list Z -> list Z) (mp : list P) (ts : list Z) (f : P -> list Z -> gomap Z (list P)),
+  ord_ok ord -> (forall p, gomap_wf (f p ts)) ->
+  exists m, gen_processMultiPolygon ord mp ts f = Ok m /\ gomap_wf m
+    /\ forall k, gm_get Z.eqb m k
+                 = match flat_map (fun p => gm_get_or Z.eqb [] (f p ts) k) mp with [] => None | ps => Some ps end.
+Proof. exact @gen_processMultiPolygon_spec. Qed.
+Print Assumptions C10_source_tie_data_processMultiPolygon.
+
+(** ... which is the model's [merge_parts]: the same entries (a permutation of the model's association list: the
+    position of an entry is the order in which keys were first seen, which depends on the iteration order and is not
+    observable in Go), read with the model's [lookup] *)
+Theorem C10_source_tie_data_processMultiPolygon_model :
+  forall (ord : gen_site -> list Z -> list Z) (mp : list poly) (ts : list tmid) (f : poly -> list tmid -> outcome),
+  ord_ok ord -> (forall p, gomap_wf (f p ts)) ->
+  exists m, gen_processMultiPolygon ord mp ts f = Ok m
+    /\ Permutation m (merge_parts (map (fun p => f p ts) mp))
+    /\ gomap_wf m
+    /\ (forall k, lookup k m = flat_map (lookup k) (map (fun p => f p ts) mp))
+    /\ (forall k, In k (map fst m) <-> flat_map (lookup k) (map (fun p => f p ts) mp) <> []).
+Proof. exact gen_processMultiPolygon_model. Qed.
+Print Assumptions C10_source_tie_data_processMultiPolygon_model.
+
+(** ... and exactly the model's list when every iteration follows the order of the association lists *)
+Theorem C10_source_tie_data_processMultiPolygon_model_id :
+  forall (mp : list poly) (ts : list tmid) (f : poly -> list tmid -> outcome),
+  (forall p, gomap_wf (f p ts)) ->
+  gen_processMultiPolygon ord_id mp ts f = Ok (merge_parts (map (fun p => f p ts) mp)).
+Proof. exact gen_processMultiPolygon_model_id. Qed.
+Print Assumptions C10_source_tie_data_processMultiPolygon_model_id.
+
+(** the wrapper: Columns() are the wrapped feature's columns, TileMatrixID() the id it was wrapped with, Geometry() the
+    new geometry when one was given and the wrapped feature's own geometry otherwise (nil: the non-polygon pass-through) *)
+Theorem C10_source_tie_data_wrapper : forall (C P : Type) (ft : gen_Feature C P) (tm : Z) (g : option (ggeometry P)),
+  let w := gen_wrapFeatureForTileMatrix ft tm g in
+  gen_featureForTileMatrixWrapper_Columns w = Feature_Columns ft
+  /\ gen_featureForTileMatrixWrapper_TileMatrixID w = tm
+  /\ gen_featureForTileMatrixWrapper_Geometry w = match g with Some x => Some x | None => Feature_Geometry ft end
+  /\ featureForTileMatrixWrapper_wrapped w = ft.
+Proof. exact @wrapper_methods. Qed.
+Print Assumptions C10_source_tie_data_wrapper.
+
+(** THE PER-FEATURE TIE.  [model_feature ts f ft] is the model's feature for the Go feature ft (its kind with the results
+    of f); [abs_pend w] reads a sent wrapper as the model's pending entry (TileMatrixID(), newGeometry: nil = GOrig).
+    When no entry of the fan-out is without polygons, for EVERY iteration order: the body does not panic, every value it
+    sends wraps the feature itself, and the sends are the model's fan-out [fanout ts mf] — as a LIST, in the order of
+    tmIDs, for a non-polygon (ordered = true), and as a PERMUTATION of it for a polygon / multipolygon (the order is
+    that of the map iteration; the model's Snapper takes the pending entries in any order: [take_key]).  This is the
+    strongest statement true for every order: with another order the list differs ([C10_ex_data_orders]).
+    The counters: preCount + 1; postCount + 1 iff something is sent or the feature is not a polygon; nonPolygonCount. *)
+Theorem C10_source_tie_data_feature :
+  forall (nilp : poly) (ord : gen_site -> list Z -> list Z), ord_ok ord ->
+  forall (ts : list tmid) (f : poly -> list tmid -> outcome), (forall p, gomap_wf (f p ts)) ->
+  forall (ft : gen_Feature fid poly) (out : list gwrapper) (c1 c2 c3 : Z),
+  let mf := model_feature ts f ft in
+  Forall (fun e : pend => snd e <> None) (snd (fanout ts mf)) ->
+  exists sent,
+    gen_processFeatures_body nilp ord ts f ft (out, c1, c2, c3)
+    = Ok ((out ++ sent, uint64_inc c1, post_after ts mf c2, nonp_after mf c3), None)
+    /\ Forall (fun w => featureForTileMatrixWrapper_wrapped w = ft) sent
+    /\ (if fst (fanout ts mf) then map abs_pend sent = snd (fanout ts mf)
+        else Permutation (map abs_pend sent) (snd (fanout ts mf))).
+Proof. exact body_ok. Qed.
+Print Assumptions C10_source_tie_data_feature.
+
+(** the same with the identity order: the list itself, for every kind *)
+Theorem C10_source_tie_data_feature_id :
+  forall (nilp : poly) (ts : list tmid) (f : poly -> list tmid -> outcome) (ft : gen_Feature fid poly)
+         (out : list gwrapper) (c1 c2 c3 : Z),
+  (forall p, gomap_wf (f p ts)) ->
+  let mf := model_feature ts f ft in
+  Forall (fun e : pend => snd e <> None) (snd (fanout ts mf)) ->
+  exists sent,
+    gen_processFeatures_body nilp ord_id ts f ft (out, c1, c2, c3)
+    = Ok ((out ++ sent, uint64_inc c1, post_after ts mf c2, nonp_after mf c3), None)
+    /\ map abs_pend sent = snd (fanout ts mf).
+Proof. exact body_ok_id. Qed.
+Print Assumptions C10_source_tie_data_feature_id.
+
+(** an entry without polygons (f returned an id with an empty list for a Polygon — the only way): the panic of
+    processing.go:39 for such an id, after the sends of the entries the iteration visited before it — exactly the
+    model's [PanicNoPolygon] behaviour: some entries sent, then the entry without geometry *)
+Theorem C10_source_tie_data_feature_panic :
+  forall (nilp : poly) (ord : gen_site -> list Z -> list Z), ord_ok ord ->
+  forall (ts : list tmid) (f : poly -> list tmid -> outcome), (forall p, gomap_wf (f p ts)) ->
+  forall (ft : gen_Feature fid poly) (out : list gwrapper) (c1 c2 c3 : Z),
+  let mf := model_feature ts f ft in
+  Exists (fun e : pend => snd e = None) (snd (fanout ts mf)) ->
+  exists sent tm rest,
+    gen_processFeatures_body nilp ord ts f ft (out, c1, c2, c3)
+    = Ok ((out ++ sent, uint64_inc c1, post_after ts mf c2, nonp_after mf c3),
+          Some (GoPanicf "no new polygon for level %v"%string tm))
+    /\ Forall (fun w => featureForTileMatrixWrapper_wrapped w = ft) sent
+    /\ Permutation (snd (fanout ts mf)) (map abs_pend sent ++ (tm, None) :: rest).
+Proof. exact body_panic. Qed.
+Print Assumptions C10_source_tie_data_feature_panic.
+
+(** per target, EXACTLY, for every order: under the contract [wf_feature] what the body sends under tile matrix id i
+    is what [deliver] prescribes for target i ([feat_msgs]: the feature once with that target's geometry, or nothing),
+    and what a target observes of a sent value through the interface is the original columns and the new geometry, or
+    the feature's own geometry when none was computed *)
+Theorem C10_source_tie_data_feature_delivers :
+  forall (nilp : poly) (ord : gen_site -> list Z -> list Z), ord_ok ord ->
+  forall (ts : list tmid) (f : poly -> list tmid -> outcome), (forall p, gomap_wf (f p ts)) ->
+  forall (ft : gen_Feature fid poly) (out : list gwrapper) (c1 c2 c3 : Z) (i : tmid),
+  let mf := model_feature ts f ft in
+  NoDup ts -> wf_feature ts mf -> In i ts ->
+  exists sent,
+    gen_processFeatures_body nilp ord ts f ft (out, c1, c2, c3)
+    = Ok ((out ++ sent, uint64_inc c1, post_after ts mf c2, nonp_after mf c3), None)
+    /\ pend_msgs (Feature_Columns ft) i (map abs_pend sent) = feat_msgs i mf
+    /\ Forall (fun w => observed w = (Feature_Columns ft,
+                                      match featureForTileMatrixWrapper_newGeometry w with
+                                      | Some g => Some g | None => Feature_Geometry ft end)) sent.
+Proof. exact body_delivers. Qed.
+Print Assumptions C10_source_tie_data_feature_delivers.
+
+(** the Router's step: the feature goes to the channel stored under its TileMatrixID(), and to no other; without such
+    a channel the panic of processing.go:105 *)
+Theorem C10_source_tie_data_route :
+  forall (C P CH : Type) (chans : gomap Z CH) (w : gen_featureForTileMatrixWrapper C P)
+         (routed : list (CH * gen_featureForTileMatrixWrapper C P)),
+  gen_writeFeaturesToTargets_body chans w routed
+  = Ok (match gm_get Z.eqb chans (featureForTileMatrixWrapper_tileMatrixID w) with
+        | Some c => (routed ++ [(c, w)], None)
+        | None => (routed, Some (GoPanicf "no target channel for %v"%string (featureForTileMatrixWrapper_tileMatrixID w)))
+        end).
+Proof. exact @route_spec. Qed.
+Print Assumptions C10_source_tie_data_route.
+
+(** ... which happens exactly when the model's Router finds no writer ([PanicNoChannel]), the channel map having one
+    entry per target, made in any order *)
+Theorem C10_source_tie_data_route_panics_like_model :
+  forall (C P CH : Type) (chans : gomap Z CH) (ts : list tmid) (w : gen_featureForTileMatrixWrapper C P)
+         (routed : list (CH * gen_featureForTileMatrixWrapper C P)),
+  Permutation (map fst chans) ts ->
+  (exists st p, gen_writeFeaturesToTargets_body chans w routed = Ok (st, Some p))
+  <-> find_writer (gen_featureForTileMatrixWrapper_TileMatrixID w) (map new_writer ts) = None.
+Proof. exact @route_panics_like_model. Qed.
+Print Assumptions C10_source_tie_data_route_panics_like_model.
+
+(** *** Non-vacuity: a processPolygonFunc, two iteration orders *)
+Definition ex_f : poly -> list tmid -> outcome := fun p _ =>
+  if (p =? 1)%N then [(3, [100%N]); (5, [104%N])]
+  else if (p =? 2)%N then [(5, [105%N]); (3, [106%N; 107%N]); (9, [])]
+  else if (p =? 7)%N then [(5, [101%N; 102%N]); (3, [103%N])]
+  else if (p =? 8)%N then [(3, [108%N]); (5, [])]
+  else [].
+
+Example C10_ex_data_hypotheses :
+  ord_ok ord_id /\ ord_ok ord_rev /\ (forall p ts, gomap_wf (ex_f p ts)).
+Proof.
+  split; [intros s l; apply Permutation_refl|]. split; [intros s l; apply Permutation_sym, Permutation_rev|].
+  intros p ts. unfold ex_f, gomap_wf.
+  destruct (p =? 1)%N; [|destruct (p =? 2)%N; [|destruct (p =? 7)%N; [|destruct (p =? 8)%N]]];
+    apply nodupz_NoDup; reflexivity.
+Qed.
+
+(** a multipolygon with parts 1 and 2: the two orders give the same entries at different places; id 9, for which f
+    returned no polygon, has no entry *)
+Example C10_ex_data_processMultiPolygon :
+  gen_processMultiPolygon ord_id [1%N; 2%N] [3; 5] ex_f = Ok [(3, [100%N; 106%N; 107%N]); (5, [104%N; 105%N])]
+  /\ gen_processMultiPolygon ord_rev [1%N; 2%N] [3; 5] ex_f = Ok [(5, [104%N; 105%N]); (3, [100%N; 106%N; 107%N])]
+  /\ merge_parts [ex_f 1%N [3; 5]; ex_f 2%N [3; 5]] = [(3, [100%N; 106%N; 107%N]); (5, [104%N; 105%N])].
+Proof. vm_compute. repeat split; reflexivity. Qed.
+
+(** a polygon split in two on 5 and kept on 3: sent as (5, multipolygon) and (3, polygon) in one order, the other way
+    round in the other; a point: once per tmID in the order of tmIDs with nil as new geometry; a polygon with an entry
+    without polygons: the send of 3, then the panic for 5 — or the panic at once, depending on the order *)
+Example C10_ex_data_orders :
+  let poly7 := mk_Feature 11%N (Some (GoPolygon 7%N)) in
+  let point := mk_Feature 12%N (Some (GoOtherGeom 1%N)) in
+  let poly8 := mk_Feature 13%N (Some (GoPolygon 8%N)) in
+  let w ft k g := mk_featureForTileMatrixWrapper ft g k in
+  gen_processFeatures_body 0%N ord_id [3; 5] ex_f poly7 ([], 0, 0, 0)
+  = Ok (([w poly7 5 (Some (GoMultiPolygon [101%N; 102%N])); w poly7 3 (Some (GoPolygon 103%N))], 1, 1, 0), None)
+  /\ gen_processFeatures_body 0%N ord_rev [3; 5] ex_f poly7 ([], 0, 0, 0)
+  = Ok (([w poly7 3 (Some (GoPolygon 103%N)); w poly7 5 (Some (GoMultiPolygon [101%N; 102%N]))], 1, 1, 0), None)
+  /\ gen_processFeatures_body 0%N ord_rev [3; 5] ex_f point ([], 7, 7, 7)
+  = Ok (([w point 3 None; w point 5 None], 8, 8, 8), None)
+  /\ gen_processFeatures_body 0%N ord_id [3; 5] ex_f poly8 ([], 0, 0, 0)
+  = Ok (([w poly8 3 (Some (GoPolygon 108%N))], 1, 1, 0), Some (GoPanicf "no new polygon for level %v"%string 5))
+  /\ gen_processFeatures_body 0%N ord_rev [3; 5] ex_f poly8 ([], 0, 0, 0)
+  = Ok (([], 1, 1, 0), Some (GoPanicf "no new polygon for level %v"%string 5))
+  /\ fanout [3; 5] (model_feature [3; 5] ex_f poly7) = (false, [(5, Some (GMulti [101%N; 102%N])); (3, Some (GPoly 103%N))])
+  /\ wf_feature [3; 5] (model_feature [3; 5] ex_f poly7).
+Proof.
+  cbv zeta. repeat split; try (vm_compute; reflexivity).
+  - vm_compute. repeat constructor; cbn; intuition discriminate.
+  - vm_compute. intros x [<-|[<-|[]]]; cbn; tauto.
+  - repeat constructor; cbn; discriminate.
+Qed.
